@@ -17,10 +17,22 @@ func newC08Oracle(w *World) Oracle { return &c08Oracle{} }
 func (c *c08Oracle) Check(w *World, o *Obs) []Violation {
 	var out []Violation
 	st := o.Step
-	if !o.IsHTTP || st.Kind != "probe" || !strings.HasPrefix(st.str("path"), "/probe/mw/") {
+	// /probe/mw/...     - MountedMiddleware2(reqs, mode, mount-pathed)
+	// /probe/legacy/... - the older boolean wrappers Middleware / MountedMiddleware
+	//                     (full-auth and 2FA flags = the requirement bits, redirect flag = mode 1, else 404)
+	if !o.IsHTTP || st.Kind != "probe" {
 		return nil
 	}
-	parts := strings.SplitN(strings.TrimPrefix(st.str("path"), "/probe/mw/"), "/", 4)
+	api := ""
+	for _, a := range []string{"mw", "legacy"} {
+		if strings.HasPrefix(st.str("path"), "/probe/"+a+"/") {
+			api = a
+		}
+	}
+	if api == "" {
+		return nil
+	}
+	parts := strings.SplitN(strings.TrimPrefix(st.str("path"), "/probe/"+api+"/"), "/", 4)
 	if len(parts) < 4 {
 		return nil
 	}
@@ -28,6 +40,12 @@ func (c *c08Oracle) Check(w *World, o *Obs) []Violation {
 	fmt.Sscanf(parts[0], "%d", &reqs)
 	fmt.Sscanf(parts[1], "%d", &mode)
 	mp := parts[2] == "1"
+	if api == "legacy" {
+		w.Stats.Reach["c08_legacy_wrapper"]++
+	}
+	if o.Method != "GET" {
+		w.Stats.Reach["c08_method_other_than_get"]++
+	}
 	uid := o.uidBefore()
 	half := o.SessBefore["halfauth"] != ""
 	twofa := o.SessBefore["twofactor"] != ""
@@ -92,7 +110,7 @@ func (c *c08Oracle) Check(w *World, o *Obs) []Violation {
 		}
 		return true, ""
 	}
-	site := fmt.Sprintf("mw/%d/%d/%v", reqs, mode, mp)
+	site := fmt.Sprintf("%s/%d/%d/%v", api, reqs, mode, mp)
 	class := pathClass(st.str("path"), st.str("rawquery"))
 	switch {
 	case uid == "" || !reqsMet || (storage == "notfound") || (storage == "ok" && !loadable):
@@ -191,7 +209,16 @@ func (g *c08Gen) sweep(w *World, b int) []Step {
 				if g.r.Chance(1, 5) {
 					st.Fault = &FaultDirective{Site: "db.Load", Index: 0, Kind: []string{"err", "notfound"}[g.r.Intn(2)]}
 				}
+				if g.r.Chance(1, 4) {
+					st.Str["method"] = []string{"HEAD", "POST", "PUT", "DELETE"}[g.r.Intn(4)]
+				}
 				out = append(out, st)
+				if mode < 2 && g.r.Chance(1, 2) {
+					// the same row through the older boolean wrappers
+					lp := fmt.Sprintf("/probe/legacy/%d/%d/%d/%s", reqs, mode, mpi, strings.Join(segs, "/"))
+					lst := Step{Kind: "probe", B: b, A: -1, Str: map[string]string{"path": lp, "rawquery": rawQueries[g.r.Intn(len(rawQueries))]}}
+					out = append(out, lst)
+				}
 			}
 		}
 	}
@@ -215,7 +242,8 @@ func (g *c08Gen) Next(w *World, n int) *Step {
 		pw := &SecretRef{Kind: "password", A: a}
 		var reach []Step
 		states := []string{"anon", "login", "login", "halfauth", "twofa", "pending", "deleted", "halfauth_twofa", "cookie_only", "cookie_only"}
-		switch states[g.r.Intn(len(states))] {
+		state := states[g.r.Intn(len(states))]
+		switch state {
 		case "anon":
 			reach = []Step{{Kind: "logout", B: b}}
 		case "login":
@@ -233,8 +261,14 @@ func (g *c08Gen) Next(w *World, n int) *Step {
 			}
 			pw = &SecretRef{Kind: "password", A: a}
 			reach = []Step{{Kind: "logout", B: b}, {Kind: "login", B: b, A: a, Sec: pw}}
-			if w.KB.TOTPSecret[a] != "" && g.r.Chance(2, 3) {
+			if w.KB.TOTPSecret[a] != "" && (g.r.Chance(2, 3) || state == "halfauth_twofa") {
 				reach = append(reach, Step{Kind: "totp_validate", B: b, A: a, Sec: &SecretRef{Kind: "totp", A: a}})
+			}
+			if state == "halfauth_twofa" {
+				// the statement quantifies over every combination of marks: this
+				// one is put together by hand (the flows clear the half-auth
+				// mark when the second factor is completed)
+				reach = append(reach, Step{Kind: "app_session_put", B: b, Str: map[string]string{"key": "halfauth", "val": "true"}})
 			}
 		case "deleted":
 			reach = []Step{{Kind: "login", B: b, A: a, Sec: pw}, {Kind: "op_delete", B: b, A: a}}
